@@ -58,10 +58,11 @@ def lexer_generate(run, prop=None):
         plan = [("bytes", "AlphaA", 5), ("bytes", "AlphaC", 5), ("lexemes", "LexemesA", 4), ("lexemes", "LexemesB", 4),
                 ("lexemes", "LexemesBlk", 4), ("lexemes", "LexemesExpr", 4), ("lexemes", "LexemesDir", 4)]
     elif run.tier == "quick":
-        plan = [("bytes", "AlphaA", 4), ("bytes", "AlphaB", 4), ("bytes", "AlphaC", 4), ("lexemes", "LexemesA", 3)]
+        plan = [("bytes", "AlphaA", 4), ("bytes", "AlphaB", 4), ("bytes", "AlphaC", 4), ("lexemes", "LexemesA", 3),
+                ("lexemes", "LexemesU", 4)]
     else:
         plan = [("bytes", "AlphaA", 5), ("bytes", "AlphaB", 5), ("bytes", "AlphaC", 5), ("lexemes", "LexemesA", 4),
-                ("lexemes", "LexemesB", 4)]
+                ("lexemes", "LexemesB", 4), ("lexemes", "LexemesU", 5)]
     for mode, alpha, n in plan:
         cfg = lexer_cfg(alpha, n) if mode == "bytes" else lexseq_cfg(alpha, n)
         st = run.tlc("MC_Lexer", cfg, name="MC_Lexer_%s_%d" % (alpha, n), timeout=1500)
@@ -270,8 +271,8 @@ CHECK_DEADLOCK FALSE
 
 @check("C01")
 def c01(run):
-    fams = (["pairs", "flat2", "mixed", "members", "faults", "assign", "reuse"] if run.tier == "quick"
-            else ["pairsall", "flat2", "flat3", "mixed", "members", "faults", "assign", "reuse", "triples"])
+    fams = (["pairs", "flat2", "mixed", "members", "faults", "assign", "reuse", "ieee"] if run.tier == "quick"
+            else ["pairsall", "flat2", "flat3", "mixed", "members", "faults", "assign", "reuse", "triples", "ieee"])
     sts = run.tlc_many([dict(module="MC_Expr", cfg=expr_cfg(fam), name="MC_Expr_" + fam, timeout=1500, workers=2)
                         for fam in fams])
     for fam, st in zip(fams, sts):
@@ -282,11 +283,13 @@ def c01(run):
                      "expression trees (every pair, and in the thorough tier every triple, of the 11 binary operators "
                      "in every shape; unary, postfix, ternary, index forms mixed with each operator) and flat operator "
                      "sequences grouped by the specification's Pratt parser (TLC checks RoundTrip on every tree), each "
-                     "with binding sets chosen to separate groupings and in several layouts; replayed through "
+                     "with binding sets chosen to separate groupings and in several layouts; every operator and every "
+                     "comparison of an arithmetic result over NaN, +Inf, -Inf, zero and ordinary doubles (from the data "
+                     "map and from float division by zero); replayed through "
                      "EvaluateString; non-trivial = the model fixes the output or demands an error",
                      exhaustive=True,
                      assumptions=["int64 arithmetic modelled on small values and the +-1 neighbourhood of the int64 "
-                                  "bounds; floats on short dyadic rationals only (DESIGN.md section 9)"])
+                                  "bounds; floats on short dyadic rationals, NaN and the infinities (DESIGN.md section 9)"])
 
 
 @check("C09")
